@@ -33,7 +33,7 @@ theorem C19_holds (bounds : ApiEntry → List Bound) (hw : WellWired19 bounds) (
     (ha : accepts bounds u = true) : Legit u := by
   have hs := fun b hb => sat_of_accepts hw ha (b := b) hb
   unfold Legit
-  refine ⟨?_, ?_, ?_, ?_, ?_, ?_⟩
+  refine ⟨?_, ?_, ?_, ?_, ?_, ?_, ?_⟩
   · intro h
     have := hs .handler (by cases he : u.entry <;> simp_all [ApiEntry.needsHandler, required])
     simpa [sat] using this
@@ -51,6 +51,9 @@ theorem C19_holds (bounds : ApiEntry → List Bound) (hw : WellWired19 bounds) (
     have h1 := hs .default (by simp [h, required])
     have h2 := hs .restartable (by simp [h, required])
     exact ⟨by simpa [sat] using h1, by simpa [sat] using h2⟩
+  · intro h
+    have := hs .streamHandler (by rcases h with h | h <;> simp [h, required])
+    simpa [sat] using this
   · intro h
     have := hs .streamHandler (by rcases h with h | h <;> simp [h, required])
     simpa [sat] using this
@@ -83,5 +86,20 @@ def badUse : Use :=
 example : accepts looseBounds badUse = true := by decide
 example : ¬ Legit badUse := by unfold Legit; decide
 example : accepts required badUse = false := by decide
+
+/-- The same for the entry points added last: an `Addr<Broker<T>>::publish` without the unit-response bound and a
+    `spawn_on_stream` without the `StreamHandler` bound each let an illegitimate use through. -/
+def looseBounds2 : ApiEntry → List Bound := fun e =>
+  if e = .brokerAddrPublish ∨ e = .spawnOnStream then [] else required e
+def badUse2 : Use :=
+  { entry := .brokerAddrPublish, actor := { handles := [], restartable := false, hasDefault := false, streamItems := [] },
+    msg := { id := 2, unitResponse := false }, item := 0, state := .restartOnly }
+def badUse3 : Use :=
+  { entry := .spawnOnStream, actor := { handles := [1], restartable := false, hasDefault := true, streamItems := [] },
+    msg := { id := 1, unitResponse := true }, item := 10, state := .restartOnly }
+example : accepts looseBounds2 badUse2 = true ∧ accepts looseBounds2 badUse3 = true := by decide
+example : ¬ Legit badUse2 := by unfold Legit; decide
+example : ¬ Legit badUse3 := by unfold Legit; decide
+example : accepts required badUse2 = false ∧ accepts required badUse3 = false := by decide
 
 end Hannibal
